@@ -127,6 +127,10 @@ def perturbations(script, rng, everything):
             for t in ('ssh-rsa', 'rsa-sha2-256', 'rsa-sha2-512'):
                 s2['hostkeys'][t]['bits'] = nb
             res.append(('size', 'rsa host key %d -> %d bits' % (cur, nb), s2))
+        s2 = copy.deepcopy(script)
+        for t in ('ssh-rsa', 'rsa-sha2-256', 'rsa-sha2-512'):
+            s2['hostkeys'][t]['bits'] = cur - 16
+        res.append(('size', 'rsa host key %d -> %d bits (two bytes: the tool measures key lengths in bytes and drops an odd byte as the sign byte of the mpint)' % (cur, cur - 16), s2))
     for ct in [t for t in keys if '-cert-' in t]:
         spec = script['hostkeys'][ct]
         if spec['type'] == 'rsa-cert':
@@ -137,6 +141,9 @@ def perturbations(script, rng, everything):
         if spec['ca']['type'] == 'rsa':
             s2['hostkeys'][ct]['ca'] = {'type': 'rsa', 'bits': spec['ca']['bits'] + 1024}
             res.append(('ca', 'CA size %d -> %d' % (spec['ca']['bits'], spec['ca']['bits'] + 1024), s2))
+            s4 = copy.deepcopy(script)
+            s4['hostkeys'][ct]['ca'] = {'type': 'rsa', 'bits': spec['ca']['bits'] - 16}
+            res.append(('ca', 'CA size %d -> %d (two bytes)' % (spec['ca']['bits'], spec['ca']['bits'] - 16), s4))
             s3 = copy.deepcopy(script)
             s3['hostkeys'][ct]['ca'] = {'type': 'ed25519'}
             res.append(('ca', 'CA type rsa -> ed25519', s3))
@@ -149,6 +156,10 @@ def perturbations(script, rng, everything):
         s2 = copy.deepcopy(script)
         s2['gex'] = {'sizes': [nb], 'style': script['gex'].get('style', 'strict')}
         res.append(('modulus', 'gex modulus %d -> %d' % (cur, nb), s2))
+        # the smallest drift there is: a group one bit shorter (handed out by a round-up server, which is how a non-standard length gets measured at all)
+        s3 = copy.deepcopy(script)
+        s3['gex'] = {'sizes': [cur - 1], 'style': 'roundup'}
+        res.append(('modulus', 'gex modulus %d -> %d (one bit)' % (cur, cur - 1), s3))
     return res
 
 
